@@ -5,6 +5,7 @@ import (
 	"strings"
 
 	"gverif/core"
+	"gverif/engine/aliasx"
 	"gverif/engine/args"
 	"gverif/engine/asmx"
 	"gverif/engine/constfold"
@@ -26,8 +27,10 @@ import (
 	"gverif/engine/overlap"
 	"gverif/engine/paramuse"
 	"gverif/engine/pool"
+	"gverif/engine/rawx"
 	"gverif/engine/sibx"
 	"gverif/engine/stride"
+	"gverif/engine/swapx"
 	"gverif/engine/twin"
 	"gverif/engine/worksize"
 )
@@ -50,20 +53,20 @@ var canaries = map[string][]canary{}
 // propertyCanaries lists, per property, the rules whose canaries are run
 // after the property's own analysis.
 var propertyCanaries = map[string][]string{
-	"C01": {"BETA.noread", "FLAG.neginc", "STRIDE.index", "STRIDE.len", "STRIDE.start", "STRIDE.rowoffset", "STRIDE.extent", "FLAG.trans", "TWIN.generated", "ASM.units", "ASM.lost"},
-	"C02": {"WORKSIZE.fallback", "OKFLOW.loopstatus", "FACTKIND.pair", "ARGS.order", "ARGS.lencheck", "ARGS.query", "LOOPIDX.unused", "OKFLOW.report", "STRIDE.vecinc", "WORKSIZE.min", "WORKSIZE.querylen"},
-	"C03": {"WORKSIZE.fallback", "GUARD.operand", "FLAG.uplomap", "STRIDE.veclda", "FACTKIND.pair", "LOOPIDX.origin", "ARGS.order", "ARGS.lencheck", "ARGS.query", "LOOPIDX.unused", "OKFLOW.report", "STRIDE.workld", "STRIDE.worknext", "WORKSIZE.min"},
-	"C04": {"STRIDE.contig", "TWIN.bounds", "NILRECV"},
+	"C01": {"FLAG.unitdiag", "BETA.noread", "BETA.quickret", "BETA.scaleguard", "FLAG.neginc", "STRIDE.index", "STRIDE.len", "STRIDE.start", "STRIDE.rowoffset", "STRIDE.extent", "FLAG.trans", "TWIN.generated", "ASM.units", "ASM.lost"},
+	"C02": {"FLAG.unset", "FLAG.unitdiag", "WORKSIZE.fallback", "OKFLOW.loopstatus", "FACTKIND.pair", "ARGS.order", "ARGS.lencheck", "ARGS.query", "LOOPIDX.unused", "OKFLOW.report", "STRIDE.vecinc", "WORKSIZE.min", "WORKSIZE.querylen"},
+	"C03": {"FLAG.unset", "FLAG.unitdiag", "WORKSIZE.fallback", "GUARD.operand", "FLAG.uplomap", "STRIDE.veclda", "FACTKIND.pair", "LOOPIDX.origin", "ARGS.order", "ARGS.lencheck", "ARGS.query", "LOOPIDX.unused", "OKFLOW.report", "STRIDE.workld", "STRIDE.worknext", "WORKSIZE.min"},
+	"C04": {"SWAP.cond", "STRIDE.contig", "TWIN.bounds", "NILRECV"},
 	"C05": {"OVERLAP.extent", "OVERLAP.guard", "MODSET.mat", "OVERLAP.symmetric", "TWIN.shadow"},
-	"C06": {"OKFLOW.condpath", "FACT.condafter", "FACTKIND.pair", "OKFLOW.use", "OKFLOW.cond", "OKFLOW.report", "FACT.normorder", "FACT.state", "FACT.condunit", "NILRECV"},
+	"C06": {"FACT.deadloop", "FACT.reuse", "FLAG.unset", "OKFLOW.condpath", "FACT.condafter", "FACTKIND.pair", "OKFLOW.use", "OKFLOW.cond", "OKFLOW.report", "FACT.normorder", "FACT.state", "FACT.condunit", "NILRECV"},
 	"C07": {"ARGS.arms", "ARGS.strict", "ARGS.fullrow", "WORKSIZE.querylen", "ARGS.order", "ARGS.lencheck", "ARGS.query", "MAT.order", "ASM.window", "ASM.tail", "STRIDE.len"},
-	"C08": {"CONSTFOLD.underflow", "ASM.lost", "PARAMUSE.read", "ASM.window", "ASM.tail", "ASM.units", "STRIDE.extent", "SIB.guards"},
-	"C09": {"GOPROTO.accumzero", "GOPROTO.semcap", "GOPROTO.scratch", "GLOBAL.write", "GOPROTO.capture", "GOPROTO.lockpair", "GOPROTO.sibling", "POOL.uaf"},
-	"C12": {"GRAPHINV.prune", "TWIN.sibguard", "GRAPHINV.panicorder", "GRAPHINV.absent", "GRAPHINV.iterreset", "GRAPHINV.converse", "GRAPHINV.uid", "GRAPHINV.iter", "TWIN.sibstate"},
+	"C08": {"BETA.scaleguard", "CONSTFOLD.underflow", "ASM.lost", "PARAMUSE.read", "ASM.window", "ASM.tail", "ASM.units", "STRIDE.extent", "SIB.guards"},
+	"C09": {"RAW.stride", "GOPROTO.accumzero", "GOPROTO.semcap", "GOPROTO.scratch", "GLOBAL.write", "GOPROTO.capture", "GOPROTO.lockpair", "GOPROTO.sibling", "POOL.uaf"},
+	"C12": {"SWAP.cond", "GRAPHINV.prune", "TWIN.sibguard", "GRAPHINV.panicorder", "GRAPHINV.absent", "GRAPHINV.iterreset", "GRAPHINV.converse", "GRAPHINV.uid", "GRAPHINV.iter", "TWIN.sibstate"},
 	"C16": {"DECODE.order", "DECODE.errdrop", "DECODE.mul", "DECODE.selfcmp", "DECODE.clone", "DECODE.fields"},
 	"C17": {"RESET.noleak", "GLOBAL.write", "RESET.fields", "WINDOW.pointwise"},
-	"C18": {"GOPROTO.accumzero", "CONST.stencil", "GOPROTO.sibling"},
-	"C19": {"OPT.limits", "GOPROTO.scratch", "GOPROTO.run", "INIT.state"},
+	"C18": {"RAW.stride", "SWAP.cond", "GOPROTO.accumzero", "CONST.stencil", "GOPROTO.sibling"},
+	"C19": {"ALIAS.config", "OPT.limits", "GOPROTO.scratch", "GOPROTO.run", "INIT.state"},
 }
 
 func init() {
@@ -87,6 +90,16 @@ func init() {
 		{"OKFLOW.loopstatus", "lapack/gonum/dgetrf.go", "blockOk := impl.Dgetf2(m-j, jb, a[j*lda+j:], lda, ipiv[j:j+jb])\n\t\tif !blockOk {\n\t\t\tok = false\n\t\t}", "ok = impl.Dgetf2(m-j, jb, a[j*lda+j:], lda, ipiv[j:j+jb])", func() *core.Result { return okflow.Run(def, core.Pkgs("./lapack/gonum")) }},
 		{"FLAG.uplomap", "lapack/gonum/dsyev.go", "kind = lapack.UpperTri", "kind = lapack.LowerTri", func() *core.Result { return flagx.RunUploMap(def, core.Pkgs("./lapack/gonum")) }},
 		{"FLAG.neginc", "blas/gonum/level2float64.go", "Implementation{}.Dscal(lenY, beta, y, -incY)", "Implementation{}.Dscal(lenY, beta, y, incY)", func() *core.Result { return flagx.RunNegInc(def, core.Pkgs("./blas/gonum")) }},
+		{"BETA.quickret", "blas/gonum/level3cmplx128.go", "if (alpha == 0 || k == 0) && beta == 1 {", "if alpha == 0 && beta == 1 || k == 0 {", func() *core.Result { return flagx.RunBetaZero(def, core.Pkgs("./blas/gonum")) }},
+		{"BETA.scaleguard", "internal/asm/f32/gemv.go", "\tif beta == 0 {\n\t\tfor i = 0; i < m; i++ {\n\t\t\ty[iy] = alpha * DotInc(x, a[lda*i:lda*i+n], n, incX, 1, kx, 0)\n\t\t\tiy += incY\n\t\t}\n\t\treturn\n\t}\n", "", func() *core.Result { return flagx.RunBetaScale(def, core.Pkgs("./internal/asm/f32")) }},
+		{"FLAG.unitdiag", "lapack/gonum/dtrtri.go", "\tif diag == blas.NonUnit {\n\t\tfor i := 0; i < n; i++ {\n\t\t\tif a[i*lda+i] == 0 {", "\t{\n\t\tfor i := 0; i < n; i++ {\n\t\t\tif a[i*lda+i] == 0 {", func() *core.Result { return flagx.RunUnitDiag(def, core.Pkgs("./lapack/gonum")) }},
+		{"SWAP.cond", "num/quat/abs.go", "\tif r < j {\n\t\tr, j = j, r", "\tif i < j {\n\t\tr, j = j, r", func() *core.Result { return swapx.Run(def, core.Pkgs("./num/quat")) }},
+		{"RAW.stride", "diff/fd/jacobian.go", "\tfor i := 0; i < m; i++ {\n\t\tfor j := 0; j < n; j++ {\n\t\t\tdst.Set(i, j, 0)\n\t\t}\n\t}\n", "\tfor i := range dst.RawMatrix().Data[:m*n] {\n\t\tdst.RawMatrix().Data[i] = 0\n\t}\n", func() *core.Result { return rawx.Run(def, core.Pkgs("./diff/fd")) }},
+		{"ALIAS.config", "optimize/neldermead.go", "copy(n.values, n.InitialValues)", "n.values = n.InitialValues", func() *core.Result { return aliasx.Run(def, core.Pkgs("./optimize")) }},
+		{"FACT.deadloop", "mat/qr.go", "\t// Zero below the triangular.\n\tfor i := c; i < r; i++ {", "\t// Zero below the triangular.\n\tfor i := r; i < c; i++ {", func() *core.Result { return factx.Run(def) }},
+		{"FACT.reuse", "mat/lq.go", "\t\tlq.q.Reset()\n\t\tlq.q.reuseAsNonZeroed(n, n)", "\t\tlq.q.reuseAsNonZeroed(n, n)", func() *core.Result { return factx.Run(def) }},
+		{"FLAG.unset", "mat/gsvd.go", "\t\tjobU = lapack.GSVDNone\n\t\tjobV = lapack.GSVDNone\n\t\tjobQ = lapack.GSVDNone\n\t\tif GSVDU&kind != 0 {", "\t\tif GSVDU&kind != 0 {", func() *core.Result { return flagx.RunUnset(def, core.Pkgs("./mat")) }},
+		{"FLAG.unset", "lapack/gonum/dgeev.go", "\t} else if wantvr {\n\t\tside = lapack.EVRight", "\t} else if wantvr {", func() *core.Result { return flagx.RunUnset(def, core.Pkgs("./lapack/gonum")) }},
 		{"BETA.noread", "blas/gonum/level3float64.go", "\tif beta == 0 {\n\t\tfor i := 0; i < m; i++ {\n\t\t\tctmp := c[i*ldc : i*ldc+n]\n\t\t\tfor j := range ctmp {\n\t\t\t\tctmp[j] = 0", "\tif beta == 0 {\n\t\tfor i := 0; i < m; i++ {\n\t\t\tctmp := c[i*ldc : i*ldc+n]\n\t\t\tfor j := range ctmp {\n\t\t\t\tctmp[j] *= beta", func() *core.Result { return flagx.RunBetaZero(def, core.Pkgs("./blas/gonum")) }},
 		{"GUARD.operand", "lapack/gonum/dbdsqr.go", "if ncc > 0 {\n\t\t\t\timpl.Dlasr(blas.Left, lapack.Variable, lapack.Forward, n, ncc, work, work[n-1:], c, ldc)", "if nru > 0 {\n\t\t\t\timpl.Dlasr(blas.Left, lapack.Variable, lapack.Forward, n, ncc, work, work[n-1:], c, ldc)", func() *core.Result { return flagx.RunGuardOperand(def, core.Pkgs("./lapack/gonum")) }},
 		{"GOPROTO.scratch", "optimize/minimize.go", "\tworker := func() {\n\t\tx := make([]float64, dim)\n", "\tx := make([]float64, dim)\n\tworker := func() {\n", func() *core.Result { return goproto.Run(def, core.Pkgs("./optimize")) }},
